@@ -474,14 +474,29 @@ func ExpandTemplate(parts []gen.TmplPart, ts int64, line string, labels map[stri
 		case "trim":
 			sb.WriteString(strings.TrimSpace(labels[t.A]))
 		case "unix_of_label":
+			// unixToTime reads the unit off the number of digits: 5 days, 10 seconds, 13
+			// milliseconds, 16 microseconds, 19 nanoseconds since the epoch; anything else fails.
 			v := labels[t.A]
-			if len(v) != 10 {
+			n, err := strconv.ParseInt(v, 10, 64)
+			if err != nil {
 				return "", true
 			}
-			if _, err := strconv.ParseInt(v, 10, 64); err != nil {
+			var sec int64
+			switch len(v) {
+			case 5:
+				sec = n * 86400
+			case 10:
+				sec = n
+			case 13:
+				sec = time.UnixMilli(n).Unix()
+			case 16:
+				sec = time.UnixMicro(n).Unix()
+			case 19:
+				sec = time.Unix(0, n).Unix()
+			default:
 				return "", true
 			}
-			sb.WriteString(strings.TrimLeft(v, "+"))
+			sb.WriteString(strconv.FormatInt(sec, 10))
 		case "ts_millis":
 			sb.WriteString(strconv.FormatInt(time.Unix(0, ts).UnixMilli(), 10))
 		case "alignLeft", "alignRight":
